@@ -171,7 +171,7 @@ def check(name, goal, hints=None):
     ctx.obls.append((name, ctx.hyps(), tm.lift(goal), list(hints or [])))
 
 
-def explore(run, pre, max_paths=20000, extra_axioms=None):
+def explore(run, pre, max_paths=20000, extra_axioms=None, raises=()):
     """run: zero-argument callable executing the function under verification on proxies.
     Yields (ctx, result or None, status) per path."""
     work = [[]]
@@ -193,6 +193,12 @@ def explore(run, pre, max_paths=20000, extra_axioms=None):
             except (Undecided, CheckerError):
                 raise
             except Exception as e:
+                if raises and isinstance(e, tuple(raises)):
+                    # the code under verification raised one of its own exceptions: a path that does not return
+                    res, status = e, 'raised'
+                    work.extend(ctx.pending)
+                    out.append((ctx, res, status))
+                    continue
                 # the proxies could not carry the current code (or the code itself raises): an engine limit,
                 # decided by the bounded stand-in / native replay, never a verdict by itself
                 import traceback
@@ -662,7 +668,7 @@ class _AssignedNames(ast.NodeVisitor):
     def visit_Call(self, node):
         # x.append(...) etc. mutate the object bound to x (only when the list transform is on)
         if MUTATING_METHODS[0] and isinstance(node.func, ast.Attribute) and isinstance(node.func.value, ast.Name) \
-                and node.func.attr in ('append', 'extend', 'insert', 'pop', 'remove', 'clear', 'sort', 'reverse', 'update', 'add'):
+                and node.func.attr in ('append', 'appendleft', 'extend', 'insert', 'pop', 'popleft', 'remove', 'clear', 'sort', 'reverse', 'update', 'add'):
             self._add(node.func.value.id)
         self.generic_visit(node)
 
@@ -1103,11 +1109,11 @@ def fn_sha(ns_or_src_path, fname):
 # ---------------------------------------------------------------------------
 
 def run_contract(S, qualname, run, pre, post, *, file=None, max_paths=5000, gram=True, replay=None,
-                 extra_hyps=None, timeout=None, instance=''):
+                 extra_hyps=None, timeout=None, instance='', raises=()):
     """run(): executes the real function on proxies and returns its result (inside an exploration).
     post(result, ctx) -> OrderedDict clause -> term.  Adds obligations to the session; returns path info."""
     SPACE[0] = GramSpace() if SPACE[0] is None else SPACE[0]
-    paths = explore(run, pre, max_paths=max_paths)
+    paths = explore(run, pre, max_paths=max_paths, raises=raises)
     S.functions.setdefault(qualname, dict(file=file, sha256=fn_sha(file, qualname.split('.')[-1]) if file else '', frontend='P'))
     nret = 0
     sp = space()
